@@ -172,7 +172,7 @@ def run(ctx):
             ctx.check("invariant under common rescaling", rel(v2, v1) <= 10 and rel(v3, v1) <= 10, lambda: dict(desc(), scale=s, before=v1, after=(v2, v3)),
                       mechanism="rescaling (%s)" % model)
         # simultaneous fit: CombineFCN = sum of the parts
-        if i % 4 == 0 and model in ("default", "extended", "cached_int", "cfit"):
+        if (i % 4 == 0 or gauss) and model in ("default", "extended", "cached_int", "cfit", "cfit_extended", "simple"):
             try:
                 data2 = lik.make_sample(cfg, card, 29, rng, "positive", cfit=cfit)
                 phsp2 = lik.make_sample(cfg, card, 77, rng, "ones", cfit=cfit)
